@@ -84,7 +84,7 @@ func (c *checker) partB() {
 	}
 	var logElems []logElem
 	for _, id := range ids {
-		for _, p := range []string{"a", "b", ""} {
+		for _, p := range []string{"a", "b", "", "/a"} { // ("/a" is a string of its own: equal to itself, different from "a")
 			for _, b := range []string{"b", "b-", "", "nosuch"} {
 				logElems = append(logElems, logElem{id: id, prefix: p, backend: b})
 			}
